@@ -82,6 +82,16 @@ fn coll_strategy(max_m: usize, max_n: u64, work: u64) -> impl Strategy<Value = C
         if clip == 0 {
             ss.q = (ss.q / 3).max(2);
         }
+        // one case in eight: the upper register limit q + 1 sits inside the spread of the register values (typical value 1 + log_b(a n),
+        // spread a few units of 1/ln b), so that a part of the registers is clipped at q + 1, a part sits at q and a part below
+        if clip == 2 {
+            let delta = ((seed >> 16) % 5000) as f64 / 1000.0 - 2.5;
+            let na = (only_a + both).max(only_b + both).max(1) as f64;
+            let top = 1.0 + ((ss.a.0 * na).ln() + delta) / b.ln();
+            if top >= 1.0 && top < 4.0e9 {
+                ss.q = top.floor() as u64;
+            }
+        }
         // one case in sixteen: base extremely close to 1 with a large rate and the full u32 register range
         // (register values of order 1e9: the upper half of the u32 range is reachable only here)
         let extreme = clip == 1;
@@ -159,6 +169,11 @@ pub fn eval_coll(c: &CollCase) -> Eval {
         .resolution(t.tol)
         .class_if(!documented && c.ss.b.0 - 1.0 > 1e-6, "small-q-clipping-exercised")
         .class_if(c.ss.b.0 - 1.0 < 1e-6, "b-1<1e-6-large-rate-u32-range")
+        .class_if({
+            let na = (c.only_a + c.both).max(c.only_b + c.both).max(1) as f64;
+            let top = 1.0 + (c.ss.a.0 * na).ln() / c.ss.b.0.ln();
+            ((kmax as f64 - top) * c.ss.b.0.ln()).abs() < 3.0
+        }, "upper-limit-within-the-register-spread")
         .class_if(c.both == 0, "disjoint")
         .class_if(c.only_a == 0 || c.only_b == 0, "nested-or-equal")
         .class_if(c.only_a + c.both == 0 || c.only_b + c.both == 0, "one-side-empty")
